@@ -275,6 +275,19 @@ def _check_exists(ck: Checker, rule: str = "C07.exists") -> None:
     for h in [x for x in g.nodes.values() if x.kind == "handler"]:
         ts = handler_types(h.ast)
         ck.require(set(ts) <= ALLOWED_SWALLOW, rule, fn, h, f"swallows only {sorted(ts)}", f"existence query swallows {ts}: unrelated errors would be read as 'missing'")
+    # both verdicts of check() - mismatch (ObjectFormatError) and absence (FileNotFoundError: also what a concurrent
+    # writer's discard of the same residue looks like) - are answered "does not exist" for that oid, inside the loop
+    chk_all = [m for m in g.nodes.values() if m.loops for c2 in calls_at(m) if is_method_call(c2, "check") and norm(c2.func.value) == "self"]
+    for m in chk_all:
+        caught = set()
+        for lab, d in m.succ:
+            if lab == "exc" and g.nodes[d].kind == "handler" and m.loops[-1] in g.nodes[d].loops:
+                caught |= set(handler_types(g.nodes[d].ast))
+        broad = caught & {"Exception", "BaseException", "OSError"}
+        okc = ("ObjectFormatError" in caught or "Exception" in caught) and ("FileNotFoundError" in caught or broad)
+        ck.require(okc, rule, fn, m, "a failing check (mismatch or vanished file) is answered per oid, inside the loop",
+                   f"`{m.text()[:50]}`: the per-oid handler catches only {sorted(caught) or 'nothing'}; a FileNotFoundError from check() (the file was discarded by a concurrent writer after an earlier existence test, or vanished) escapes the status query and fails the whole transfer",
+                   construct=f"{m.text()[:40]} / both verdicts handled")
 
 
 def _check_verify(ck: Checker, rule: str) -> None:
